@@ -48,6 +48,16 @@ TABLE = {
  "C15-d": ("C15", "akai/file_entry.py is_table_end: raw read(2) lets SectorReadError escape", "a truncated image whose directory sector lies behind sample data, cut before the end of that directory"),
  "C16-d": ("C16", "akai/sample.py: active loops kept as a one-pass filter() iterator (same change as C20-c, found independently)", "two operations touching one looped sample on the same opened image"),
  "C18-c": ("C18", "akai/data_types.py build_akai_tune_cents: cents folded with (x - X1) % 100 + X1", "tuning byte 0x7F (+50.0 cents) re-encodes as 0x80"),
+ "C03-d": ("C03", "actions.py parse_text_file: readlines(0x2000) - the text probe returns only the first 8 KiB of lines", "a cue sheet longer than 8 KiB (about 70 tracks with TITLE and two INDEX lines)"),
+ "C04-d": ("C04", "generalized/wav.py: a single little-endian mono stream is copied in 64 KiB blocks instead of going through the transcoder (no whole-frame trim)", "a mono sample whose file-table entry size ends inside a 16-bit word of the data"),
+ "C06-d": ("C06", "structural.py make_export_name: the blanks before a dropped trailing dot are no longer stripped", "a directory-level name with a blank before a trailing dot ('DRUMS .')"),
+ "C08-d": ("C08", "util/fat.py FileStream: 'contiguous' fast path when last - first == len - 1", "a chain of >= 3 sectors with the end points of a run but permuted / foreign interior ([2,4,3,5], [1,5,3])"),
+ "C09-d": ("C09", "akai/partition.py: partition rejected unless tell() == start + size after the body is skipped (wrapper streams clamp seeks at the end)", "an AKAI image ending inside its last partition, delivered as 2352-byte sectors / MDX"),
+ "C10-d": ("C10", "cdda/image.py children: naming routines run only when there is more than one track", "a CDDA image with exactly one track whose TITLE contains a separator"),
+ "C12-d": ("C12", "transcoder.py get_buffer_sizes: each stream's block sized from its own frame size", ">= 2 source streams with different frame sizes, longer than one 4096-byte block"),
+ "C17-d": ("C17", "actions.py parse_text_file: readlines(0x8000) - the text probe returns only the first 32 KiB of lines", "more than 32 KiB of cosmetic lines in front of a meaningful line"),
+ "C19-d": ("C19", "filters/common.py ChickSysRolandDeemphFilter.process slices blocks longer than 4096 samples; a last slice < 18 samples collapses the FIR history", "one block of more than 4096 samples whose length mod 4096 is 1..17"),
+ "C20-d": ("C20", "akai/akai_string.py AkaiPaddedString: an extra NullStripped(0x00) - but code 0x00 is the digit '0'", "a 12-character name ending in the digit 0"),
  "C03-c": ("C03", "cuesheet.py: sector position computed through float seconds, int(75 * total_seconds)", "index times whose frame value hits a float rounding case (about 5% of MM:SS:FF, e.g. 00:00:55)"),
  "C04-c": ("C04", "generalized/wav.py export_wav: file opened without truncation (os.open without O_TRUNC)", "re-export into a directory that already holds a longer file of the same name"),
  "C05-c": ("C05", "rewind moved from to_generalized into export_wav, which rewinds only data_streams[0]", "an AKAI L/R pair exported a second time from the same opened image: channel 1 empty"),
@@ -84,7 +94,6 @@ HISTORY = {
  "C06-b": "missed by the first version of C06 (every generated directory held a differently named sample); caught after directories got a child of the same name",
  "C09-b": "missed by the first version of C09 (cue sheets had a single data track); caught after adding mixed-mode cue sheets (data + audio tracks) to the container set",
  "C10-b": "missed by the first version of C10 (no pool name that sanitises to nothing AND contains a separator); caught after adding '/', '*\\*', '?/?' to the pools",
- "C15-b": "missed by the first version of C15 (quick tier strided the cuts and picked images whose directory order equals allocation order); caught after all structure-interior cuts are kept and inversion-heavy images are selected",
  "C20-b": "first run ended with exit 2: the binding self-test used the first trace line, which the change made invalid; the self-test now picks an accepted line, and the change is reported as a violation",
  "C02-c": "missed by the first version of C02 (records were always stored densely at indices 0..n-1); caught after RolandImage.tla got the 'spread' layout (records at index k+4)",
  "C03-b": "missed by C03 (plain titles) and by the first quick tier of C06 (no complete L/R title pair in the CDDA pool slice); caught after adding the L/R title pool to C06's quick tier",
@@ -92,6 +101,14 @@ HISTORY = {
  "C11-b": "missed by the first version of C11 (no second request for a chain during a schedule); caught after the Roland target lists other performances sharing samples, preferring cluster_top > 0",
  "C16-c": "missed by the first version of C16 (plain names, one partition); caught after the images got a file and a directory of different branches with the same raw name ending in '-'",
  "C19-b": "would have been missed (signals without silence); caught after adding impulse / burst-silence / silence-burst signals",
+ "C03-d": "missed by the first version of C03 (sheets of at most 3 tracks, a few hundred bytes); caught after the 99-track sheet and sheets with 200 / 2500 remarks were added (Cue.tla Dense / Repeats, evaluated by TLC with a deep Java stack)",
+ "C17-d": "missed by the first version of C17 for the same reason as C03-d; caught by the same long sheets (check_image goes through the tool's own text probe)",
+ "C04-d": "missed by the first version of C04 (every generated entry size is header + 2 x words); caught after entries whose size ends inside a 16-bit word were added",
+ "C06-d": "missed by the first version of C06 (no pool name with a blank before a trailing dot); caught after 'A .' / 'A  .' joined the pools and every lone name is replayed at every level",
+ "C10-d": "missed by the quick tier of C10 (one-item directories were strided away); caught after naming.pick keeps every lone name and shuffles the rest by seed",
+ "C19-d": "missed by the first version of C19 (blocks of at most 196 samples); caught after blocks just past 1024 / 4096 / 65536 samples were added",
+ "C08-d": "caught only once by the first version (medium chain [1,8,3]); tiny configurations [0,2,1,3], [1,5,3], [0,1,2,3] added so that the complete state graph meets it",
+ "C15-b": "missed by the first version of C15 (quick tier strided the cuts and picked images whose directory order equals allocation order); caught after all structure-interior cuts are kept and inversion-heavy images are selected; MISSED AGAIN after the AKAI generator learned programs and unknown-type files (no sample-before-sample inversion among 457 simulated images any more) - caught after AkaiImage.tla got the Inverted layouts (directory order reversed against allocation order) and a vacuity guard",
  "C14-d": "missed by the quick tier of C14 (type byte took 14 class values, none of them a known type without a parser); caught after the type byte of one entry is swept over all 256 values and the others over every known type code +-1, unstrided",
  "C03-c": "missed by the first version of C03 (index times only with frames 0, 1, 74); caught after a sweep of all frame values 0..74 on one-track sheets",
  "C04-c": "missed by the first version of C04 (every export went into a fresh directory); caught after a re-export scenario into a directory holding longer files of the same names",
